@@ -38,7 +38,7 @@ func vouchersOnB() []ksim.Op {
 
 // Parts builds the explorations shared by C30, C31, C32 and C49; arm selects the reporting oracle.
 func Parts(c *core.C, arm Arm) []ksim.Part {
-	d := core.Pick(c, 0, 1)
+	d := core.Pick(c, 0, 2)
 	mk := func(name string, depth int, share float64, sc *TW) ksim.Part {
 		sc.Arm = arm
 		sc.Hist = c.Hist
@@ -51,23 +51,40 @@ func Parts(c *core.C, arm Arm) []ksim.Part {
 		return ksim.Part{Name: name, Sc: sc, Cfg: ksim.Config{MaxDepth: depth}, Share: share}
 	}
 	parts := []ksim.Part{
-		mk("2c/macro/fresh/three-routes", 7+d, 0.14, &TW{Sync: true, SendFrom: []int{0}, Routes: []int{RV1, RAlias, RClient}, Timeouts: []int{ToNext},
+		// A sends stake over each of the three routes with a near timeout: receive vs timeout races, duplicates, two in flight
+		mk("2c/macro/fresh/three-routes", 7+d, 0.15, &TW{Sync: true, SendFrom: []int{0}, Routes: []int{RV1, RAlias, RClient}, Timeouts: []int{ToNext},
 			Bases: []string{Stake}, MaxPkts: 2, MaxCommits: 2}),
-		mk("2c/macro/fresh/receive-failures", 7+d, 0.16, &TW{Sync: true, SendFrom: []int{0}, Routes: []int{RV1, RAlias}, Receivers: []int{RcvUser0, RcvBlocked}, Timeouts: []int{ToFar},
+		// error acknowledgements: receiver is a blocked module account, or receive is switched off by the authority; relays signed by a user
+		mk("2c/macro/fresh/receive-failures", 7+d, 0.2, &TW{Sync: true, SendFrom: []int{0}, Routes: []int{RV1, RAlias}, Receivers: []int{RcvUser0, RcvBlocked}, Timeouts: []int{ToFar},
 			Bases: []string{Stake}, MaxPkts: 2, MaxCommits: 2, Toggles: 1, ToggleOn: []int{1}, NoTimeout: true, Relayer: 1}),
+		// MsgTransfer's "entire balance", v1 timeout by height and by timestamp, MsgTransfer{use_aliasing}, the slashed native a/b
 		mk("2c/macro/fresh/amounts-timeouts-slash-denom", 6+d, 0.2, &TW{Sync: true, SendFrom: []int{0}, Routes: []int{RV1, RMsgAlias}, Amounts: []int{1}, Timeouts: []int{ToNext, ToNextTime},
 			MaxPkts: 2, MaxCommits: 2, NoAck: true}),
-		mk("2c/macro/vouchers-return", 6+d, 0.25, &TW{Sync: true, Prefix: vouchersOnB(), SkipPrefix: true, SendFrom: []int{1}, Kind: 2, Routes: []int{RV1, RAlias, RClient}, Amounts: []int{0, 1},
+		// B holds vouchers of A's stake (channel path and client path) and sends them back over every route, also across paths
+		mk("2c/macro/vouchers-return", 6+d, 0.45, &TW{Sync: true, Prefix: vouchersOnB(), SkipPrefix: true, SendFrom: []int{1}, Kind: 2, Routes: []int{RV1, RAlias, RClient}, Amounts: []int{0, 1},
 			Timeouts: []int{ToNext}, MaxPkts: 2, MaxCommits: 2, Toggles: 1, ToggleOn: []int{0}, Relayer: 1}),
-		mk("2c/macro/both-directions", 6+d, 0.33, &TW{Sync: true, Routes: []int{RV1, RMsgClient}, Timeouts: []int{ToNext}, Bases: []string{Stake}, Kind: 1, MaxPkts: 2, MaxCommits: 1}),
+		// both chains send their native stake at the same time over the same channel / client pair
+		mk("2c/macro/both-directions", 6+d, 0.3, &TW{Sync: true, Routes: []int{RV1, RMsgClient}, Timeouts: []int{ToNext}, Bases: []string{Stake}, Kind: 1, MaxPkts: 2, MaxCommits: 1}),
+		// primitive commit / update steps, relays with any of the three newest consensus heights
 		mk("2c/micro/primitive-stale-proofs", 7+d, 0.5, &TW{Stale: true, SendFrom: []int{0}, Routes: []int{RV1, RClient}, Timeouts: []int{ToNext}, Bases: []string{Stake}, MaxPkts: 1, MaxCommits: 2}),
+		// MsgSendPacket whose signer is not the payload's sender, next to the matching sends of both users
 		mk("2c/macro/signer-mismatch", 4+d, 0, &TW{Sync: true, Mismatch: true, Senders: []int{0, 1}, SendFrom: []int{0}, Routes: []int{RAlias, RClient, RMsgAlias}, Receivers: []int{RcvUser1}, Timeouts: []int{ToFar},
 			MaxPkts: 2, MaxCommits: 1, Relayer: 1}),
 	}
 	if !c.Quick() {
+		all := []int{RV1, RAlias, RClient, RMsgAlias, RMsgClient}
 		parts = append(parts,
-			mk("3c/macro/line-forward-and-back", 7, 0, &TW{NChains: 3, Sync: true, Prefix: vouchersOnB()[:5], SkipPrefix: true, SendFrom: []int{1}, Routes: []int{RV1, RAlias}, Amounts: []int{1},
-				Timeouts: []int{ToNext}, Bases: []string{Stake}, MaxPkts: 2, MaxCommits: 2}),
+			// one transfer at a time, the full product of the alphabet (5 routes x 2 senders x denoms x 2 amounts x 3 receivers x 3 timeouts), complete life cycle of each
+			mk("2c/macro/single-transfer/full-product/natives", 6, 0, &TW{Sync: true, SendFrom: []int{0}, Routes: all, Senders: []int{0, 1}, Amounts: []int{0, 1}, Receivers: []int{RcvUser0, RcvUser1, RcvBlocked},
+				Timeouts: []int{ToFar, ToNext, ToNextTime}, MaxPkts: 1, MaxCommits: 2, Toggles: 1, ToggleOn: []int{1}}),
+			mk("2c/macro/single-transfer/full-product/vouchers", 6, 0, &TW{Sync: true, Prefix: vouchersOnB(), SkipPrefix: true, SendFrom: []int{1}, Kind: 2, Routes: all, Amounts: []int{0, 1}, Receivers: []int{RcvUser0, RcvUser1, RcvBlocked},
+				Timeouts: []int{ToFar, ToNext, ToNextTime}, MaxPkts: 1, MaxCommits: 2, Toggles: 1, ToggleOn: []int{0}, Relayer: 1}),
+			// three chains in a line: B holds A's stake as voucher and moves it on to C or back to A, C returns it
+			mk("3c/macro/line-forward-and-back", 8, 0, &TW{NChains: 3, Sync: true, Prefix: vouchersOnB()[:5], SkipPrefix: true, SendFrom: []int{1, 2}, Routes: []int{RV1, RAlias}, Amounts: []int{1},
+				Timeouts: []int{ToNext}, Bases: []string{Stake}, Kind: 2, MaxPkts: 2, MaxCommits: 2}),
+			// three chains from scratch: A -> B -> C with far timeouts, natives and vouchers, acknowledgements only
+			mk("3c/macro/fresh-two-hops", 9, 0, &TW{NChains: 3, Sync: true, SendFrom: []int{0, 1}, Routes: []int{RV1}, Amounts: []int{1}, Timeouts: []int{ToFar}, Bases: []string{Stake},
+				MaxPkts: 2, MaxCommits: 2, NoTimeout: true}),
 		)
 	}
 	if f := os.Getenv("VERIF_TW_PART"); f != "" { // development aid: run only the parts whose name contains f
@@ -86,8 +103,8 @@ func Parts(c *core.C, arm Arm) []ksim.Part {
 func Run(c *core.C, arm Arm) {
 	parts := Parts(c, arm)
 	ksim.RunParts(c, parts, [][]ksim.Op{
-		{xfer(0, 0, RV1, 0, stakeOf(0), 0, RcvUser0, ToNext), syncOp(1), {K: OpTimeout, A: []int{0, 19}}, {K: OpTimeout, A: []int{0, 19}}},
-		{xfer(0, 0, RAlias, 0, stakeOf(0), 0, RcvBlocked, ToFar), syncOp(0), {K: OpRecv, A: []int{0, 19}}, syncOp(1), {K: OpAck, A: []int{0, 19}}},
+		{xfer(0, 0, RV1, 0, stakeOf(0), 0, RcvUser0, ToNext), syncOp(1), {K: OpTimeout, A: []int{0, 8}}, {K: OpTimeout, A: []int{0, 8}}},
+		{xfer(0, 0, RAlias, 0, stakeOf(0), 0, RcvBlocked, ToFar), syncOp(0), {K: OpRecv, A: []int{0, 8}}, syncOp(1), {K: OpAck, A: []int{0, 8}}},
 	})
 	c.Set("alphabet", "xfer(chain, route in {MsgTransfer over the v1 channel, MsgSendPacket over the channel's v2 alias, MsgSendPacket client-to-client, MsgTransfer{use_aliasing}, MsgTransfer to a client id}, sender user, denom held incl. vouchers, amount in {1, all}, receiver in {user0, user1, blocked module account}, timeout in {far, next destination block by height/seconds, next block by v1 timestamp}) | badsend(MsgSendPacket signer != payload sender, 3 signers x 2 owners) | sync(chain) = commit + honest client updates (macro parts) | commit / update (primitive part, relays with any of the 3 newest consensus heights) | recv / ack / timeout for every packet ever sent, always enabled | rxflip(chain) = MsgUpdateParams by the authority toggling receive_enabled")
 	c.Set("bounds", "2 chains (thorough: also 3 chains in a line), 2 users per chain funded 2 stake + 2 a/b and 1 stake, at most 2 transfers in flight, at most 2 new transfers per part, per-part depth and commit bounds as listed under parts")
